@@ -6,6 +6,11 @@ ROOT = os.path.dirname(os.path.dirname(os.path.abspath(__file__)))
 
 # id -> (category, technique, level text, level note, design_ref)
 CHECKS = {
+  "C03": ("fault_enumeration",
+          "fault-injection property testing: a failing Storage wrapper (k-th storage-level call fails before / after / half-way) under generated histories, judged against the store model; single faults enumerated exhaustively in the thorough tier",
+          "Histories of 3-14 calls (add, delete, commit, rollback, compact, new writer handle, reopen) run on a wrapper around the in-memory or filesystem storage that fails chosen storage-level calls (Storage trait methods and file-handle read/write/flush/seek/set_len/sync_all) before their effect, after it, or after half of a write. Quick: 14 fault plans per history (single faults, and double faults with the second 1-12 calls after the first); thorough: additionally every call index of the fault-free run x 3 modes for a quarter of the histories. Per faulted API call: Err => a new reader of the live index and a fresh open from storage both show the committed contents unchanged, and the same call retried on healthy storage succeeds; Ok => its effects are fully visible in both views; two faults inside one call => the index stays openable with one of the two complete states; at the end open + new writer + commit must give committed + queued operations.",
+          "Trusted: the store model; the wrapper's reading of 'atomic_write is atomic'. The oracle's own reads are not counted and never fail.",
+          "DESIGN.md §5 C03"),
   "C04": ("exploration",
           "model-based stateful property testing (proptest op sequences vs. reference store model)",
           "Generated histories of add/delete/commit/rollback/compact/reopen over 1-3 writer handles and both storages are executed against the real index and against an in-memory reference model; a fresh reader's match_all must equal the model after every check point. Exploration, not proof: it samples the history space (thousands of histories per run) and shrinks any failure to a minimal op list.",
